@@ -48,6 +48,8 @@ var c08Archs = []c08Arch{
 	{Name: "two-lines", Text: "union\nselect\n"},
 	{Name: "one-line-with-a-blank", Text: "union select\n"},
 	{Name: "chain0-spelling", Text: "  zero\noffset\n", Spell: "-chain0"},
+	// a canonical file without the i flag that has an upper-case class (fine on its own; the lint belongs to files with the flag)
+	{Name: "upper-case-class-canonical", Text: "##! Please refer to the documentation at\n##! https://coreruleset.org/docs/development/regex_assembly/.\n\n[A-Z]+bart\n"},
 }
 
 type c08File struct {
@@ -267,6 +269,37 @@ func C08(r *core.Run) {
 				}
 				term := terminals[0]
 				if cmd == "format" {
+					// the verdicts of --check: --all names exactly the files that single --check invocations name
+					os.RemoveAll(sb)
+					tr.Tree.Materialise(sb)
+					notFormatted := func(out string) []string {
+						var ns []string
+						for _, l := range strings.Split(out, "\n") {
+							if strings.Contains(l, "not properly formatted") {
+								ns = append(ns, strings.TrimSpace(strings.TrimPrefix(l, "::warning ::")))
+							}
+						}
+						sort.Strings(ns)
+						return ns
+					}
+					for _, mode := range [][]string{nil, {"-o", "github"}} {
+						call := func(arg string) core.CLIResult {
+							o.Transitions++
+							return core.RunCLI(r.Crs, sb, "", nil, append(append([]string{"-d", sb}, mode...), "regex", "format", "--check", arg)...)
+						}
+						ca := call("--all")
+						var singles []string
+						anyFail := false
+						for _, f := range files {
+							cs := call(f.Arg)
+							singles = append(singles, notFormatted(cs.Stdout)...)
+							anyFail = anyFail || cs.Exit != 0
+						}
+						sort.Strings(singles)
+						if got := notFormatted(ca.Stdout); strings.Join(got, "#") != strings.Join(singles, "#") || (ca.Exit != 0) != anyFail {
+							fail("all-equals-any-order-format", fmt.Sprintf("format --check --all %v names %v (exit %d), the single --check invocations name %v (some failed: %v)", mode, got, ca.Exit, singles, anyFail), nil)
+						}
+					}
 					// format --all handles every file on its own, failing ones included
 					if treeHash(allTree) != treeHash(term.tree) {
 						fail("all-equals-any-order-format", "tree after format --all differs from the tree after the single invocations", diffTrees(term.tree, allTree))
@@ -297,6 +330,35 @@ func C08(r *core.Run) {
 					a, b := compareChunks(all.Stdout), compareChunks(strings.Join(term.outs, ""))
 					if strings.Join(a, "#") != strings.Join(b, "#") {
 						fail("per-rule-report-equal", "compare --all reports differ from the single reports", map[string]any{"all": a, "single": b})
+					}
+				}
+				if cmd == "compare" {
+					// the same in GitHub mode: every rule that a single invocation reports is reported by --all, and
+					// --all fails exactly when one of them does
+					os.RemoveAll(sb)
+					tr.Tree.Materialise(sb)
+					ga := core.RunCLI(r.Crs, sb, "", nil, "-d", sb, "-o", "github", "regex", "compare", "--all")
+					o.Transitions++
+					var singles string
+					anyFail := false
+					for _, f := range files {
+						gs := core.RunCLI(r.Crs, sb, "", nil, "-d", sb, "-o", "github", "regex", "compare", f.Arg)
+						o.Transitions++
+						singles += gs.Stdout
+						anyFail = anyFail || gs.Exit != 0
+					}
+					heads := func(out string) []string {
+						var hs []string
+						for _, l := range strings.Split(out, "\n") {
+							if strings.Contains(l, "Regex of ") {
+								hs = append(hs, l)
+							}
+						}
+						sort.Strings(hs)
+						return hs
+					}
+					if a, b := heads(ga.Stdout), heads(singles); strings.Join(a, "#") != strings.Join(b, "#") || (ga.Exit != 0) != anyFail {
+						fail("per-rule-report-equal", fmt.Sprintf("compare --all in GitHub mode reports %v (exit %d), the single invocations report %v (some failed: %v)", a, ga.Exit, b, anyFail), tailStr(ga.Stderr, 300))
 					}
 				}
 				if all.Exit != 0 && cmd != "compare" {
